@@ -10,9 +10,11 @@ open SamVerif.IntRange SamVerif.Assign
 #print axioms assignable_iff_equal
 #print axioms fault_slips_only_through_any
 #print axioms any_accepts_everything
+#print axioms assignable_iff_consistent
 #print axioms meet_accepts_iff_assignable
 #print axioms meet_anyFree_eq
 #print axioms sameType_iff_equal
+#print axioms solve_sound
 #print axioms ifChain_join_exact
 #print axioms ifChain_one_wrong_branch_rejected
 #print axioms match_join_exact
